@@ -14,13 +14,20 @@ CLAIM = dict(
           "increasing in (region, core mask), hence in (region << 32) | mask and (region << 18) | mask; a level-3 word "
           "from get_region_for_chip selects that chip only. For a tree constructed directly at any level (public class "
           "RegionCoreTree) every in-square insertion sequence keeps the invariant and the node's set plus the squares of "
-          "the cores it reported full is exactly the inserted set (subtree_insert). The executable oracle the driver runs on the "
+          "the cores it reported full is exactly the inserted set (subtree_insert). For every history on ONE tree object - "
+          "add_core calls interleaved with any number of read-outs get_regions_and_coremasks() at any points - every "
+          "read-out selects exactly the cores added before it, each once, and the final tree is the tree built from the "
+          "added cores (history_reads_exact, history_read_at). The executable oracle the driver runs on the "
           "implementation's own output is proved to decide exactly these predicates for all inputs (exactB_iff, "
           "nodupB_iff, strictB_iff). The word semantics is proved identical to the one C09's machine model uses "
           "(c09_selects_agree) and the output is proved to meet the contract C09's load theorems assume of "
           "compress_flood_fill_regions (c09_regions_contract, c09_compressOK). Tied to rig/machine_control/regions.py by "
           "exact list equality (plus tree state, add_core return values and generator order) on generated target sets "
-          "per run, with the proved oracle evaluated on the implementation's own pairs."),
+          "per run, with the proved oracle evaluated on the implementation's own pairs; state carried between calls is "
+          "exercised by histories on one RegionCoreTree object (every read-out judged by the oracle against the cores "
+          "added so far and compared with the model) and by sequences of compress_flood_fill_regions calls in one process "
+          "on dictionaries / core sets the caller keeps and changes in place (every result judged against the targets as "
+          "they are at that call; the caller's data must survive the call)."),
     design="3/C12",
     note=("Proved: everything above, about the Lean model and the Lean specification. Validated only (differential "
           "testing, every run): that the Lean model computes what regions.py computes. Trusted: that SC&MP reads a "
@@ -34,7 +41,7 @@ THEOREMS = ["region_word_selects", "single_chip", "add_inv", "insert_all", "comp
             "compress_exact", "exact_select_iff", "compress_sorted", "compress_keys", "chipsOf_spec",
             "exactB_iff", "nodupB_iff", "strictB_iff", "oracle_decides",
             "c09_selects_agree", "c09_selectsCore_agree", "c09_strictlyIncreasing_agree",
-            "c09_regions_contract", "c09_compressOK", "subtree_insert", "emit_not_sorted"]
+            "c09_regions_contract", "c09_compressOK", "subtree_insert", "emit_not_sorted", "history_reads_exact", "history_read_at"]
 THEOREMS += ['gen_get_region_for_chip']   # translator tie: generated function bodies = model (Props/C12Gen.lean)
 
 RULE = ("target sets built from shapes: sparse points (whole grid or a small window), aligned full blocks of side "
@@ -45,9 +52,15 @@ RULE = ("target sets built from shapes: sparse points (whole grid or a small win
         "get_region_for_chip on random and edge (x, y, level); trees constructed directly as RegionCoreTree(base_x, "
         "base_y, level) for every level, squares filled completely for some cores with the holes filled last (add_core "
         "returns True below the root), re-insertion after a mask was cleared, chips just outside the square, some "
-        "unaligned bases. A case is non-trivial when the output contains a "
+        "unaligned bases; histories on one RegionCoreTree object: the adds of a generated target set (holes of a block "
+        "last, so blocks fill up and merge between read-outs; re-adds) interleaved with read-outs of the empty tree, "
+        "after the first add, at random points, twice in a row, around the last adds and at the end; sequences of "
+        "2-12 compress_flood_fill_regions calls in one process on one or two dictionaries the caller keeps, with "
+        "discard/add/clear on the chips' own set objects, deleted / new / re-bound chips and unchanged repeats between "
+        "the calls; replays carry the whole history. A case is non-trivial when the output contains a "
         "region word of level < 3 (at least one collapse of sixteen children) or >= 2 pairs, for a directly constructed "
-        "tree when some add_core returned True; distinct = distinct canonical case JSON")
+        "tree when some add_core returned True, for a history when an add lies between two read-outs, for a call "
+        "sequence when a dictionary is passed again after an in-place change of a core set; distinct = distinct canonical case JSON")
 
 CORE_SETS = [[0], [1], [17], [0, 1], [1, 2, 3], [0, 17], list(range(1, 17)), list(range(18)),
              [5, 6, 7, 8], [2], [16, 17]]
@@ -353,6 +366,372 @@ def shrink(ctx, case, key):
     return {"kind": "compress", "points": pts}
 
 
+# ---------------------------------------------------------------- state carried between calls
+# (1) histories on ONE RegionCoreTree object: add_core interleaved with read-outs
+# (2) sequences of compress_flood_fill_regions calls on dictionaries the caller keeps and changes in place
+
+def small_points(rng, limit):
+    """explicit insertion list of a generated target set of at most `limit` cores, and its shapes"""
+    for _ in range(30):
+        base = gen_case(rng, False)
+        tg = build_targets(base)
+        pts = [[x, y, p] for (x, y), cs in tg.items() for p in cs]
+        if 0 < len(pts) <= limit:
+            return pts, base["shapes"]
+    return [[rng.randrange(256), rng.randrange(256), rng.randrange(18)] for _ in range(10)], []
+
+
+def gen_history(rng):
+    """one tree object: `[x, y, p]` = add_core(x, y, p), `[]` = list(get_regions_and_coremasks()).  Reads of the
+    empty tree, after the first add, at random points, twice in a row, just before and after a block fills up and
+    merges into its parent (the holes of a block are added last), at the end; re-adding; mostly the root
+    (every read-out judged by the oracle), some directly constructed sub-trees (compared with the model)."""
+    bx = by = level = 0
+    if rng.random() < 0.12:
+        st = gen_subtree(rng)
+        bx, by, level, pts = st["x"], st["y"], st["level"], st["points"][:700]
+    else:
+        pts, shapes = small_points(rng, 700)
+        late = []
+        if rng.random() < 0.6:
+            late = [[s[1], s[2], p] for s in shapes if s[0] == "hole" for p in s[3]]
+        if rng.random() < 0.5:
+            rng.shuffle(pts)
+        pts = pts + late
+        if rng.random() < 0.3:
+            pts += [list(rng.choice(pts)) for _ in range(rng.choice([1, 3]))]
+        if rng.random() < 0.04:
+            pts.insert(rng.randrange(len(pts) + 1), rng.choice([[256, 0, 0], [0, -1, 1], [3, 3, 18], [0, 256, 17]]))
+    n = len(pts)
+    p_read = min(0.6, rng.choice([2, 4, 8, 12]) / (n + 1.0))
+    ops = []
+    if rng.random() < 0.3:
+        ops.append([])
+    for i, a in enumerate(pts):
+        ops.append(list(a))
+        if i == 0 and rng.random() < 0.5 or rng.random() < p_read or (i >= n - 2 and rng.random() < 0.5):
+            ops.append([])
+            if rng.random() < 0.25:
+                ops.append([])
+    if rng.random() < 0.9:
+        ops.append([])
+    return {"kind": "history", "x": bx, "y": by, "level": level, "ops": ops}
+
+
+def impl_history(bx, by, level, ops):
+    from rig.machine_control import regions
+    t = regions.RegionCoreTree(bx, by, level)
+    res = []
+    try:
+        for op in ops:
+            if op:
+                res.append(bool(t.add_core(op[0], op[1], op[2])))
+            else:
+                res.append([[int(r), int(m)] for (r, m) in t.get_regions_and_coremasks()])
+        return {"ok": {"tree": dump_tree(t), "results": res}}
+    except ValueError:
+        return {"err": "ValueError"}
+    except Exception as e:  # noqa
+        return {"err": "Other " + type(e).__name__}
+
+
+def in_range(x, y, p):
+    return 0 <= x < 256 and 0 <= y < 256 and 0 <= p < 18
+
+
+def prepare_history(c, reqs, idx):
+    c["impl"] = impl_history(c["x"], c["y"], c["level"], c["ops"])
+    reqs.append({"suite": "c12", "op": "history", "x": c["x"], "y": c["y"], "level": c["level"], "ops": c["ops"]})
+    idx.append((c, "model"))
+    c["_reads"] = []
+    if c["level"] == 0 and "ok" in c["impl"] and all(in_range(*op) for op in c["ops"] if op):
+        sofar = set()
+        for i, (op, res) in enumerate(zip(c["ops"], c["impl"]["ok"]["results"])):
+            if op:
+                sofar.add(tuple(op))
+            else:
+                tg = [list(t) for t in sorted(sofar)]
+                reqs.append({"suite": "c12", "op": "oracle", "targets": tg, "out": res, "queries": queries({}, tg)})
+                idx.append((c, ("read", i)))
+                c["_reads"].append((i, tg))
+
+
+def verdict_history(c):
+    """(mismatch detail or None, [(key, text)]) - no side effects"""
+    mism = None
+    if c["impl"] != c["model"]:
+        mism = ("one RegionCoreTree(%d, %d, %d) object, %d calls: results of the calls / final tree differ: impl=%s model=%s"
+                % (c["x"], c["y"], c["level"], len(c["ops"]), str(c["impl"])[:300], str(c["model"])[:300]))
+    found = []
+    if c["level"] == 0 and "err" in c["impl"] and all(in_range(*op) for op in c["ops"] if op):
+        found.append(("exception-on-valid-targets", "a call on one RegionCoreTree object raised %s although every "
+                      "added core is in range: calls %s" % (c["impl"]["err"], str(c["ops"])[:300])))
+    for i, tg in c["_reads"]:
+        o = c[("read", i)]
+        if not o["nodup"]:
+            raise RuntimeError("harness error: the oracle was given a target list with repetitions")
+        if not o["exact"] or o["bad"]:
+            found.append(("history-read-not-exact",
+                          "one RegionCoreTree object, call #%d is a read-out get_regions_and_coremasks() after %d "
+                          "add_core calls: the pairs %s do not select exactly the cores added so far %s once each "
+                          "under the documented region word%s; whole history (add = [x, y, p], read = []): %s"
+                          % (i, sum(1 for op in c["ops"][:i] if op), str(c["impl"]["ok"]["results"][i])[:200],
+                             str(tg)[:200], (" ((x, y, p, expected, selected by) = %r)" % o["bad"]) if o["bad"] else "",
+                             str(c["ops"])[:300])))
+            break
+    return mism, found
+
+
+CALL_OPS = ("new", "call", "discard", "add", "clear", "delchip", "setchip")
+
+
+def gen_calls(rng):
+    """a caller that keeps targets dictionaries and asks again: steps
+    ["new", name, [[x, y, [cores]], ...]]  a fresh dictionary of fresh sets,
+    ["call", name]                          compress_flood_fill_regions(that dictionary),
+    ["discard"/"add", name, x, y, p]        cores.discard(p) / cores.add(p) on the chip's own set object,
+    ["clear", name, x, y]                   cores.clear(),
+    ["delchip", name, x, y]                 del targets[(x, y)],
+    ["setchip", name, x, y, [cores]]        targets[(x, y)] = set(cores) (new chip, or a new set for a known chip)."""
+    mirror, steps = {}, []
+
+    def new(name):
+        pts, _ = small_points(rng, 300)
+        d = {}
+        for x, y, p in pts:
+            d.setdefault((x, y), []).append(p)
+        mirror[name] = {k: set(v) for k, v in d.items()}
+        steps.append(["new", name, [[x, y, list(cs)] for (x, y), cs in d.items()]])
+
+    def mutate(name):
+        d = mirror[name]
+        chips = sorted(d)
+        r = rng.random()
+        if not chips or r < 0.08:
+            x, y = (rng.randrange(256), rng.randrange(256)) if not chips or rng.random() < 0.5 else \
+                (min(255, chips[0][0] + 1), chips[0][1])
+            cs = rand_cores(rng)[:3]
+            d[(x, y)] = set(cs)
+            steps.append(["setchip", name, x, y, cs])
+            return
+        x, y = rng.choice(chips)
+        if r < 0.55 and d[(x, y)]:
+            p = rng.choice(sorted(d[(x, y)]))
+            d[(x, y)].discard(p)
+            steps.append(["discard", name, x, y, p])
+        elif r < 0.8:
+            p = rng.randrange(18)
+            d[(x, y)].add(p)
+            steps.append(["add", name, x, y, p])
+        elif r < 0.88:
+            d[(x, y)].clear()
+            steps.append(["clear", name, x, y])
+        elif r < 0.94:
+            del d[(x, y)]
+            steps.append(["delchip", name, x, y])
+        else:
+            cs = rand_cores(rng)[:3]
+            d[(x, y)] = set(cs)
+            steps.append(["setchip", name, x, y, cs])
+
+    new("a")
+    steps.append(["call", "a"])
+    for _ in range(rng.choice([1, 2, 3, 5])):
+        r = rng.random()
+        if r < 0.7:
+            for _ in range(rng.choice([1, 1, 2, 4, 8])):
+                mutate("a")
+            steps.append(["call", "a"])
+        elif r < 0.8:
+            steps.append(["call", "a"])             # asked again, nothing changed
+        else:
+            new("b")
+            steps.append(["call", "b"])
+            if rng.random() < 0.5:
+                mutate("b")
+                steps.append(["call", "b"])
+            steps.append(["call", "a"])
+    return {"kind": "calls", "steps": steps}
+
+
+def impl_calls(steps):
+    """interpret the steps on real dictionaries / sets in this process; a step that refers to a dictionary or chip
+    that does not exist is skipped (so every sub-sequence of a sequence is a sequence).  One record per call:
+    the insertion order the implementation iterates, its result, whether the caller's data survived the call."""
+    dicts, calls = {}, []
+    for i, st in enumerate(steps):
+        op, name = st[0], st[1]
+        if op == "new":
+            d = {}
+            for x, y, cs in st[2]:
+                d[(x, y)] = set()
+                for p in cs:
+                    d[(x, y)].add(p)
+            dicts[name] = d
+            continue
+        d = dicts.get(name)
+        if d is None:
+            continue
+        if op == "call":
+            before = [[x, y, sorted(cs)] for (x, y), cs in d.items()]
+            ids = [id(cs) for cs in d.values()]
+            order = [[x, y, p] for (x, y), cs in d.items() for p in cs]
+            r = impl_compress(d)
+            after = [[x, y, sorted(cs)] for (x, y), cs in d.items()]
+            calls.append({"step": i, "order": order, "impl": r, "targets": before,
+                          "unchanged": before == after and ids == [id(cs) for cs in d.values()], "after": after})
+        elif op == "setchip":
+            d[(st[2], st[3])] = set(st[4])
+        elif (st[2], st[3]) not in d:
+            continue
+        elif op == "discard":
+            d[(st[2], st[3])].discard(st[4])
+        elif op == "add":
+            d[(st[2], st[3])].add(st[4])
+        elif op == "clear":
+            d[(st[2], st[3])].clear()
+        elif op == "delchip":
+            del d[(st[2], st[3])]
+    return calls
+
+
+def prepare_calls(c, reqs, idx):
+    c["_calls"] = impl_calls(c["steps"])
+    for k, rec in enumerate(c["_calls"]):
+        reqs.append({"suite": "c12", "op": "compress", "targets": rec["order"]})
+        idx.append((c, ("model", k)))
+        if "ok" in rec["impl"]:
+            tg = sorted(rec["order"])
+            reqs.append({"suite": "c12", "op": "oracle", "targets": tg, "out": rec["impl"]["ok"],
+                         "queries": queries({}, tg)})
+            idx.append((c, ("oracle", k)))
+
+
+def verdict_calls(c):
+    mism, found = None, []
+    for k, rec in enumerate(c["_calls"]):
+        where = ("call #%d (step %d) of a sequence of compress_flood_fill_regions calls in one process, the caller "
+                 "keeping and changing its dictionaries in place" % (k + 1, rec["step"]))
+        tail = "targets at that call %s -> output %s; whole sequence: %s" % (
+            str(rec["targets"])[:250], str(rec["impl"])[:250], str(c["steps"])[:400])
+        if mism is None and rec["impl"] != c[("model", k)]:
+            mism = "%s: impl=%s model=%s" % (where, str(rec["impl"])[:250], str(c[("model", k)])[:250])
+        if not rec["unchanged"]:
+            found.append(("targets-changed-by-call", "%s: the call changed the caller's dictionary / core sets: before %s "
+                          "after %s" % (where, str(rec["targets"])[:250], str(rec["after"])[:250])))
+        if "ok" not in rec["impl"]:
+            found.append(("exception-on-valid-targets", "%s: raised %s on in-range targets; %s"
+                          % (where, rec["impl"]["err"], tail)))
+            continue
+        o = c[("oracle", k)]
+        if not o["nodup"]:
+            raise RuntimeError("harness error: the oracle was given a target list with repetitions")
+        if not o["exact"] or o["bad"]:
+            found.append(("call-sequence-not-exact", "%s: the pairs do not select exactly the cores requested AT THAT CALL "
+                          "once each under the documented region word%s; %s"
+                          % (where, (" ((x, y, p, expected, selected by) = %r)" % o["bad"]) if o["bad"] else "", tail)))
+        if not o["sorted"]:
+            found.append(("call-sequence-not-increasing", "%s: the pairs are not strictly increasing; %s" % (where, tail)))
+    return mism, found
+
+
+SEQ = {"history": ("ops", prepare_history, verdict_history, "c12.history"),
+       "calls": ("steps", prepare_calls, verdict_calls, "c12.calls")}
+
+
+def shrink_seq(ctx, case, key):
+    """delta debugging on the list of calls of a history / call sequence, keeping the same finding key"""
+    field, _, verdict, _ = SEQ[case["kind"]]
+    base = {k: v for k, v in case.items() if k in ("kind", "x", "y", "level")}
+
+    def keys_of(seqs):
+        cands = [dict(base, **{field: q}) for q in seqs]
+        reqs, idx = prepare(cands)
+        for (c, what), r in zip(idx, ctx.lean(reqs)):
+            c[what] = r
+        return [{k for k, _ in verdict(c)[1]} for c in cands]
+
+    seq = list(case[field])
+    if key not in keys_of([seq])[0]:
+        return case
+    n, rounds = 2, 0
+    while len(seq) >= 2 and rounds < 200:
+        rounds += 1
+        size = max(1, len(seq) // n)
+        cands = [seq[:i] + seq[i + size:] for i in range(0, len(seq), size)]
+        cands = [q for q in cands if q][:48]
+        hit = [q for q, v in zip(cands, keys_of(cands)) if key in v]
+        if hit:
+            seq = min(hit, key=len)
+            n = max(n - 1, 2)
+        elif size == 1:
+            break
+        else:
+            n = min(len(seq), n * 2)
+    return dict(base, **{field: seq})
+
+
+def finish_seq(ctx, c, desc):
+    field, _, verdict, suite = SEQ[c["kind"]]
+    mism, found = verdict(c)
+    if mism:
+        ctx.mismatch(suite, mism, desc)
+    seen = set()
+    for key, text in found:
+        if key in seen:
+            continue
+        seen.add(key)
+        small = desc
+        if key not in ctx.extra.setdefault("_shrunk", set()):
+            ctx.extra["_shrunk"].add(key)
+            small = shrink_seq(ctx, desc, key)
+            if small is not desc:
+                cand = dict(small)
+                reqs, idx = prepare([cand])
+                for (cc, what), r in zip(idx, ctx.lean(reqs)):
+                    cc[what] = r
+                again = [t for k, t in verdict(cand)[1] if k == key]
+                text = again[0] if again else text
+        ctx.violation(key, text, small)
+    if c["kind"] == "history":
+        reads = [i for i, op in enumerate(c["ops"]) if not op]
+        adds = [i for i, op in enumerate(c["ops"]) if op]
+        between = len(reads) >= 2 and any(reads[0] < a < reads[-1] for a in adds)
+        ctx.tag("history_level%d_%s" % (c["level"], "err" if "err" in c["impl"] else
+                                        "add_between_reads" if between else "other"))
+        ctx.tag("history_reads_%s" % ("0" if not reads else "1" if len(reads) == 1 else "2-5" if len(reads) <= 5
+                                      else "6+"))
+        if "ok" in c["impl"] and any(r is True for r in c["impl"]["ok"]["results"]):
+            ctx.tag("history_node_reports_full")
+        if "ok" in c["impl"]:
+            lv = {(r >> 16) & 3 for res in c["impl"]["ok"]["results"] if isinstance(res, list) for r, _ in res}
+            if any(l < 3 for l in lv):
+                ctx.tag("history_read_sees_merged_block")
+        ctx.case(desc, between and "ok" in c["impl"])
+    else:
+        calls = c["_calls"]
+        names = [c["steps"][r["step"]][1] for r in calls]
+        inplace = False
+        last = {}
+        for i, st in enumerate(c["steps"]):
+            if st[0] == "call":
+                if last.get(st[1]) == "mut":
+                    inplace = True
+                last[st[1]] = "call"
+            elif st[0] in ("discard", "add", "clear") and last.get(st[1]) in ("call", "mut"):
+                last[st[1]] = "mut"
+                ctx.tag("calls_inplace_" + st[0])
+            elif st[0] in ("delchip", "setchip"):
+                ctx.tag("calls_" + st[0])
+        ctx.tag("calls_%s" % ("1" if len(calls) <= 1 else "2-3" if len(calls) <= 3 else "4+"))
+        if len(set(names)) > 1:
+            ctx.tag("calls_two_dictionaries")
+        if inplace:
+            ctx.tag("calls_again_after_inplace_change")
+        ctx.traces += max(0, len(calls) - 1)
+        ctx.case(desc, inplace)
+
+
 WORKERS = 4         # worker processes (implementation + model driver per batch); results do not depend on it
 
 
@@ -380,6 +759,9 @@ def prepare(cases):
             if "ok" in c["impl"] and c["level"] <= 3:
                 reqs.append({"suite": "c12", "op": "chips", "r": c["impl"]["ok"]})
                 idx.append((c, "chips"))
+            continue
+        if c["kind"] in SEQ:
+            SEQ[c["kind"]][1](c, reqs, idx)
             continue
         if c["kind"] == "subtree":
             c["impl"] = impl_subtree(c["x"], c["y"], c["level"], c["points"])
@@ -410,8 +792,12 @@ def finish(ctx, cases, idx, replies):
     for (c, what), r in zip(idx, replies):
         c[what] = r
     for c in cases:
-        desc = {k: v for k, v in c.items() if k in ("kind", "shapes", "order", "points", "x", "y", "level")}
+        desc = {k: v for k, v in c.items() if k in ("kind", "shapes", "order", "points", "x", "y", "level", "ops",
+                                                    "steps")}
         ctx.traces += 1
+        if c["kind"] in SEQ:
+            finish_seq(ctx, c, desc)
+            continue
         if c["kind"] == "region":
             if c["impl"] != c["model"]:
                 ctx.mismatch("c12.region", "impl=%r model=%r" % (c["impl"], c["model"]), desc)
@@ -506,6 +892,9 @@ def run(ctx):
         "semantics of a region word as documented in regions.py / _send_ffcs (written independently in Lean as `selects`); "
         "that SC&MP implements this semantics is trusted",
         "the insertion order used by the implementation is the iteration order of the targets dict and its sets",
+        "the model is stateless between calls (a read-out is a pure traversal, compress a pure function of the targets "
+        "at the call); any state the implementation carries between calls shows up as a difference on the histories "
+        "and call sequences",
         "the enumerating oracle (exactB, strictB) is proved to decide `Exact` / `StrictlyIncreasing` for target lists "
         "without repetition (exactB_iff, strictB_iff); that hypothesis is decided by the driver on every call "
         "(nodupB, nodupB_iff) and a repetition would be reported as a harness error; the literal `countSel` is still "
@@ -530,6 +919,8 @@ def run(ctx):
     # whole machine, one core: the root keeps 0xffff (the only node that may)
     cases.append({"kind": "compress", "shapes": [["rect", 0, 0, 256, 256, [rng.randrange(18)]]], "order": 1})
     cases += [gen_subtree(rng) for _ in range(ctx.scale(300, 3000) * (4 if ctx.extended else 1))]
+    cases += [gen_history(rng) for _ in range(ctx.scale(250, 3000) * (4 if ctx.extended else 1))]
+    cases += [gen_calls(rng) for _ in range(ctx.scale(250, 3000) * (4 if ctx.extended else 1))]
     if ctx.quick:
         cases += region_cases(ctx, nreg)
     else:
@@ -560,6 +951,8 @@ def run(ctx):
 
 def replay(ctx, payload):
     ctx.extra["rule"] = RULE
-    ctx.extra["_shrunk"] = {"not-exact", "not-increasing"}   # replay the case as recorded
+    ctx.extra["_shrunk"] = {"not-exact", "not-increasing", "history-read-not-exact", "call-sequence-not-exact",
+                            "call-sequence-not-increasing", "targets-changed-by-call",
+                            "exception-on-valid-targets"}   # replay the case (the whole history) as recorded
     eval_cases(ctx, [payload["case"]])
     ctx.extra.pop("_shrunk", None)
